@@ -139,7 +139,9 @@ Lemma f_readAll_spec st h b :
   rw_file st h b ->
   exists st', f_readAll st h = (st', (true, snd (buf_read_all b))) /\ rw_file st' h (fst (buf_read_all b)) /\ frame st st' h.
 Proof.
-  intro H. unfold f_readAll. destruct (f_size_spec st h b H) as (st1 & E1 & H1 & F1). rewrite E1.
+  intro H. unfold f_readAll. destruct H as (f0 & Hf0 & Df0 & Hrest). rewrite Hf0, Df0.
+  assert (H : rw_file st h b) by (exists f0; tauto).
+  destruct (f_size_spec st h b H) as (st1 & E1 & H1 & F1). rewrite E1.
   unfold buf_size. destruct (Z.of_nat (length (b_data b)) <? 0) eqn:C; [apply Z.ltb_lt in C; lia|].
   rewrite Nat2Z.id.
   destruct (f_read_spec st1 h b (length (b_data b)) H1) as (st2 & E2 & H2 & F2). rewrite E2.
@@ -185,7 +187,9 @@ Lemma h_step_refines st h b o :
   rw_file st h b ->
   exists st', h_step st h o = (st', snd (buf_step b o)) /\ rw_file st' h (fst (buf_step b o)) /\ frame st st' h.
 Proof.
-  intro H. destruct o as [d|off wh| |n|]; unfold h_step, buf_step.
+  intro H. destruct o as [d|off wh| |n| |]; unfold h_step, buf_step.
+  6: { unfold f_flush. destruct H as (f & Hf & Hr). rewrite Hf. exists st. split; [reflexivity|].
+       split; [exists f; tauto|apply frame_refl]. }
   - destruct (f_write_spec st h b d H) as (st' & E & H' & F). rewrite E. eauto.
   - destruct (f_seek_spec st h b off wh H) as (st' & E & H' & F). rewrite E.
     destruct (buf_seek b off wh). eauto.
